@@ -124,6 +124,30 @@ Fixpoint fexec (fbody : list fstmt) (body : list stmt) (st : list Z) (n : fnode)
 
 Definition gen_file_calc (fbody : list fstmt) (body : list stmt) st n chunking := fexec fbody body st n chunking None None.
 
+(* --- the string entry points: hashing.CalculateStringHash(hasher, text) (and CalculateHash / CalculateMD5Hash, which
+   build a fresh hasher and call it) — translated statement by statement like the two functions above.  The result "" of
+   the Go function (nil hasher, or the calculation failed) is None here. *)
+Inductive sstmt :=
+  | SSNilHasher          (* if hashingAlgo == nil { return "" }                   (hashers of the model are non-nil) *)
+  | SSCalcStringReader   (* hash, err := hashingAlgo.Calculate(strings.NewReader(text)) *)
+  | SSEmptyOnErr         (* if err != nil { return "" } *)
+  | SSReturnHash.        (* return hash *)
+
+Fixpoint sexec (sb : list sstmt) (body : list stmt) (st : list Z) (text : list Z)
+         (res : option (option (list Z) * list Z)) : option (list Z) * list Z :=
+  match sb with
+  | [] => (None, match res with Some r => snd r | None => st end)
+  | SSNilHasher :: b => sexec b body st text res
+  | SSCalcStringReader :: b => sexec b body st text (Some (gen_calc body st [Data text]))
+  | SSEmptyOnErr :: b => match res with
+                         | Some (None, st') => (None, st')
+                         | _ => sexec b body st text res
+                         end
+  | SSReturnHash :: _ => match res with Some r => r | None => (None, st) end
+  end.
+
+Definition gen_string_hash (sb : list sstmt) (body : list stmt) (st : list Z) (text : list Z) := sexec sb body st text None.
+
 (* --- back ends whose handles of one file SHARE a reading position ---
    afero's tarfs copies its file object on Open: every handle of a file reads through the same reader, so the bytes a
    handle sees are those nobody has consumed yet — unless the handle is rewound when it is opened.  [sh_pos] = number of
